@@ -7,7 +7,12 @@ Definition red0 : reducers :=
   mkReducers (VFun 1 [TFun [] (TTup [TBool; TBool])] TBool)
              (VFun 2 [TFun [] (TTup [TBool; TBool])] TBool)
              (VFun 3 [TFun [] (TTup [TBool; TInt])] TInt)
-             (VFun 4 [TFun [] (TTup [TBool; TInt])] TInt).
+             (VFun 4 [TFun [] (TTup [TBool; TInt])] TInt)
+             [(TFun [] (TTup [TBool; TInt]), VFun 5 [TFun [] (TTup [TBool; TInt])] TInt);
+              (TFun [] (TTup [TBool; TFloat]), VFun 6 [TFun [] (TTup [TBool; TFloat])] TFloat);
+              (TFun [] (TTup [TBool; TString]), VFun 7 [TFun [] (TTup [TBool; TString])] TString)]
+             [(TFun [] (TTup [TBool; TInt]), VFun 8 [TFun [] (TTup [TBool; TInt])] TInt);
+              (TFun [] (TTup [TBool; TFloat]), VFun 9 [TFun [] (TTup [TBool; TFloat])] TFloat)].
 Lemma red0_wf : wf_red red0.
 Proof. reflexivity. Qed.
 
